@@ -39,6 +39,12 @@ CmpGroupOk(ev, g) ==
 (* all case-insensitive forms must report the same sign *)
 CmpEventOk(ev) == Cardinality({k \in 1..Len(ev.g) : ev.g[k].k = "isign"}) <= 1
 
+(* wide buffers: the order of the UNITS (char_traits), whatever their byte layout *)
+CmpWGroupOk(ev, g) ==
+    LET c == Compare(ev.a, ev.b) IN
+    /\ Ok(g)
+    /\ CASE g.k = "sign" -> g.v = c [] g.k = "eq" -> g.v = B(c = 0) [] g.k = "ne" -> g.v = B(c # 0)
+         [] g.k = "lt" -> g.v = B(c < 0) [] OTHER -> FALSE
 CmpNGroupOk(ev, g) ==
     LET pa == Take(ev.a, MagMin(ev.n, Len(ev.a)))
         pb == Take(ev.b, MagMin(ev.n, Len(ev.b))) IN
@@ -142,6 +148,7 @@ BoolGroupOk(ev, g) ==
 GroupOk(ev, g) ==
     CASE ev.e = "cmp" -> CmpGroupOk(ev, g)
       [] ev.e = "cmpn" -> CmpNGroupOk(ev, g)
+      [] ev.e = "cmpw" -> CmpWGroupOk(ev, g)
       [] ev.e = "cmpsized" -> SizedGroupOk(ev, g)
       [] ev.e = "case" -> CaseGroupOk(ev, g)
       [] ev.e = "find" -> FindGroupOk(ev, g)
@@ -165,14 +172,14 @@ EventOk(ev) ==
       [] OTHER -> TRUE
 
 PropOfOp(e) ==
-    IF e \in {"cmp", "cmpn", "cmpsized", "cmpmatrix", "case"} THEN <<"C06">>
+    IF e \in {"cmp", "cmpn", "cmpw", "cmpsized", "cmpmatrix", "case"} THEN <<"C06">>
     ELSE IF e \in {"find", "findlast", "affix"} THEN <<"C07">>
     ELSE IF e \in {"substr", "leftright", "trim", "bafl"} THEN <<"C08">>
     ELSE IF e \in {"split", "tokenize", "replace"} THEN <<"C09">>
     ELSE IF e \in {"access", "fill", "tobool"} THEN <<"X01">>
     ELSE <<"HARNESS">>
 
-OpNames == {"cmp", "cmpn", "cmpsized", "cmpmatrix", "case", "find", "findlast", "affix", "substr", "leftright",
+OpNames == {"cmp", "cmpn", "cmpw", "cmpsized", "cmpmatrix", "case", "find", "findlast", "affix", "substr", "leftright",
             "trim", "bafl", "split", "tokenize", "replace", "access", "fill", "tobool"}
 
 TPlatform == Ev.e = "Platform" /\ UNCHANGED <<book, ndec>>
